@@ -452,6 +452,10 @@ where
                 // indicate that the message successfully authenticated
                 // with that key.
                 context.tsig_key = Some(tsig_rr.key_name().to_owned());
+            } else {
+                // Like the answer and authority records above, any
+                // other record is merely skipped.
+                peek_rr.skip();
             }
         }
 
